@@ -55,6 +55,7 @@ class Ev:
         self.returns: List[Tuple[Any, List[str]]] = []
         self.depth = 0
         self.attr_values: Dict[str, Any] = {}  # instance attributes bound to a tuple / list display in __init__
+        self.visited: set = set()  # qualified names of the functions inlined while evaluating
 
     # -- expressions -----------------------------------------------------------------------------
     def ev(self, e: ast.AST, env: Dict[str, Any], fn: FunctionInfo, conds: List[str]):
@@ -133,16 +134,19 @@ class Ev:
             for k, v in enumerate(e.values):
                 self.ev(v, env, fn, conds if k == 0 else conds + [f"short-circuit of `{short(e, 40)}`"])
             return ("opaque", norm(e))
-        if isinstance(e, (ast.GeneratorExp, ast.ListComp)) and len(e.generators) == 1 and not e.generators[0].ifs:
+        if isinstance(e, (ast.GeneratorExp, ast.ListComp)) and len(e.generators) == 1:
             it = self.ev(e.generators[0].iter, env, fn, conds)
             if it[0] in ("tuple", "list"):
                 lazy = env.get("#lazy")
+                filt = [norm(c_) for c_ in e.generators[0].ifs]
+                out_items = []
                 for k, item in enumerate(it[1]):
                     env2 = dict(env)
                     self.assign(e.generators[0].target, item, env2, fn, conds, norm(e))
                     c2 = conds + [f"short-circuit of {lazy}()"] if (lazy and k > 0) else conds
-                    self.ev(e.elt, env2, fn, c2)
-                return ("opaque", norm(e))
+                    v_ = self.ev(e.elt, env2, fn, c2 + filt)
+                    out_items.append(("cond", filt, v_) if filt else v_)
+                return ("list", out_items) if isinstance(e, ast.ListComp) else ("opaque", norm(e))
             raise Unsupported(f"comprehension over {short(e.generators[0].iter)}")
         if isinstance(e, (ast.JoinedStr, ast.BinOp, ast.Dict, ast.Starred)):
             return ("opaque", norm(e))
@@ -267,6 +271,7 @@ class Ev:
         return ("opaque", norm(e))
 
     def inline(self, target: FunctionInfo, args, kwargs, conds, via: str):
+        self.visited.add(target.qualname)
         self.depth += 1
         if self.depth > 6:
             raise Unsupported("inlining depth")
@@ -355,16 +360,22 @@ class Ev:
             it = self.ev(st.iter, env, fn, conds)
             if it[0] in ("tuple", "list"):
                 for item in it[1]:
+                    c_extra = []
+                    if item[0] == "cond":
+                        c_extra, item = list(item[1]), item[2]
                     self.assign(st.target, item, env, fn, conds, norm(st.target))
-                    if self.block(st.body, env, fn, conds):
+                    if self.block(st.body, env, fn, conds + c_extra) and not c_extra:
                         return True
                 return False
             if it[0] == "opaque" and norm(st.iter).startswith("reversed(") and isinstance(st.iter, ast.Call) and st.iter.args:
                 inner = self.ev(st.iter.args[0], env, fn, conds)
                 if inner[0] in ("tuple", "list"):
                     for item in reversed(inner[1]):
+                        c_extra = []
+                        if item[0] == "cond":
+                            c_extra, item = list(item[1]), item[2]
                         self.assign(st.target, item, env, fn, conds, norm(st.target))
-                        if self.block(st.body, env, fn, conds):
+                        if self.block(st.body, env, fn, conds + c_extra) and not c_extra:
                             return True
                     return False
         raise Unsupported(f"statement {type(st).__name__}: {short(st)}")
@@ -759,7 +770,7 @@ def check_composite(idx, rep: Report, cls: ClassInfo, leaf_classes: Dict[str, Cl
     try:
         init = run_method(idx, cls, set(), "__init__")
         groups = {e[1]: e[2] for e in init.effects if e[0] == "setattr" and e[2][0] in ("tuple", "list")
-                  and all(x[0] == "inst" for x in e[2][1])}
+                  and all(x[0] == "inst" or (x[0] == "cond" and x[2][0] == "inst") for x in e[2][1])}
         enter = run_method(idx, cls, set(), "__enter__", groups)
         exit_ = run_method(idx, cls, set(), "__exit__", groups)
     except Unsupported as e:
@@ -966,6 +977,31 @@ def run(idx: ProgramIndex, rep: Report, tier: str, selftest: bool = True):
             fn = c.methods.get(mname)
             if fn is not None and any(mname in k.methods for k in c.mro[1:]):
                 check_state_override(idx, rep, c, mname, fn)
+        # any classmethod of a base that writes a slot and is OVERRIDDEN on this class is a hook: entering / leaving the
+        # context must go through it (a direct cls.<slot> = ... in __enter__ / __exit__ bypasses the override)
+        for hname, hfn in c.methods.items():
+            if not hfn.is_classmethod():
+                continue
+            overridden = [k for k in c.mro[1:] if hname in k.methods and slots_of(idx, k)]
+            if not overridden:
+                continue
+            base_hook = overridden[0].methods[hname]
+            writes_slot = any(isinstance(x, ast.Attribute) and isinstance(x.ctx, ast.Store) and x.attr in slots for x in ast.walk(base_hook.node)) \
+                or any(isinstance(x, ast.Call) and isinstance(x.func, ast.Name) and x.func.id == "setattr" for x in ast.walk(base_hook.node))
+            if not writes_slot:
+                continue
+            for ev_, nm in ((enter, "__enter__"), (exit_, "__exit__")):
+                writes = [e for e in ev_.effects if e[0] == "slotwrite"]
+                if not writes:
+                    continue
+                who = f"{c.module.name.split('.')[-1]}.{c.name}"
+                if hfn.qualname in ev_.visited:
+                    rep.ok("C17.S5", {"class": who, "hook": hname, "traversed_by": nm})
+                else:
+                    rep.bad("C17.S5", Finding(PROP, "C17.S5", f"{who}.{nm}", f"{nm} bypasses the overridden hook {hname}",
+                                              f"[as resolved on {who}] {nm} writes the slot directly instead of calling `{hname}`, which "
+                                              f"{c.name} overrides: the override's side effects (e.g. resetting a dependent cache) do not "
+                                              "happen when the context is entered / left", ev_.fn.loc()))
         cache[sig] = True
     if dtype_checked < 2:
         raise AnalysisError("per-dtype context (getter keyed by dtype) not found")
